@@ -50,6 +50,12 @@ func NewDG11(data []byte) (*DG11, error) {
 		return nil, fmt.Errorf("[NewDG11] error: %w", err)
 	}
 
+	// the file is ONE data object: the outer tag is that of the first object, and anything behind it would be
+	// covered by the hash in the security object but never shown
+	if len(nodes.Nodes()) != 1 {
+		return nil, fmt.Errorf("[NewDG11] file must consist of exactly one data object (found %d)", len(nodes.Nodes()))
+	}
+
 	slog.Debug("DG11", "TLV", nodes)
 
 	rootNode := nodes.NodeByTag(DG11Tag)
